@@ -427,6 +427,8 @@ def parts(ctx):
     ps += [Part("tagged-lutmix%02d" % i, tagged, ("lutmix", i, 12 if q else 300)) for i in range(2)]
     ps += [Part("tagged-heavy%02d" % i, tagged, ("heavy", i, 14 if q else 300)) for i in range(2)]
     ps += [Part("tagged-fanout%02d" % i, tagged, ("fanout", i, 16 if q else 500)) for i in range(4)]
+    # several network inputs, CPU operators between Ethos-U operators, tensors read again later: inputs and CPU results must survive until their last reader
+    ps += [Part("tagged-residual%02d" % i, tagged, ("residual", i, 16 if q else 500)) for i in range(4)]
     ps += [Part("tagged-rnn%02d" % i, tagged, ("rnn", i, 10 if q else 300)) for i in range(2)]
     ps += [Part("poison-fanout%02d" % i, poison, ("fanout", i, 8 if q else 300)) for i in range(2)]
     ps += [Part("poison%02d" % i, poison, (["cascade", "exact", "slices", "mixed", "approx", "convs"][i % 6], i, 8 if q else 300)) for i in range(6)]
